@@ -22,12 +22,41 @@ class Check(PropertyCheck):
     QUICK_N = 300
 
     def make_impl(self, scenario):
+        if scenario.meta.get("kind") == "env":
+            from impl_ext import ImplEnv
+            return ImplEnv(filter_style=scenario.meta.get("filter_style", "callable"))
         from impl_ext import ImplWorld
         return ImplWorld(scenario.meta.get("filter_style", "callable"))
 
     def generate(self, rng, n, tier):
-        for _ in range(n):
-            yield self.scenario(rng, tier)
+        for i in range(n):
+            yield self.env_scenario(rng) if i % 6 == 5 else self.scenario(rng, tier)
+
+    def env_scenario(self, rng: random.Random) -> Scenario:
+        """The last clause: the reward an environment step returns is the reward emitted for THAT step - also when the
+        environment's dispatcher is used directly between steps (a warm start), and in later episodes."""
+        family, jobs = gen.gen_instance(rng, max_jobs=4, max_ops=3)
+        f = gen.gen_filter(rng)
+        b = rng.choice(["disjunctive", "agent_task", "agent_task_jobs", "complete_agent_task"])
+        rw = rng.choice(["makespan", "idle"])
+        lines = ["new", instance_line(jobs), gen.filter_line(f), f"env {b} 1 1 {rw} 1 ; is_ready - ; duration -", "ereset"]
+        tr = gen.Tracker(jobs)
+        n_acc = 0
+        for ep in range(rng.choice([1, 2])):
+            while not tr.done():
+                j, p, m = gen.gen_valid_request(rng, tr)
+                tr.take(j)
+                n_acc += 1
+                if rng.random() < 0.3:
+                    lines.append(f"edisp {j} {p} {m}")
+                else:
+                    ms, _ = jobs[j][p]
+                    lines.append(f"estep {j} {-1 if m == 'none' else m}")
+            lines.append("ereset")
+            tr.reset()
+        return Scenario(lines, {"kind": "env", "family": family, "reward": rw, "accepted": n_acc,
+                                "filter": "none" if f is None else "+".join(f) or "empty-composite",
+                                "flexible": gen.is_flexible(jobs), "filter_style": rng.choice(["callable", "enum", "str"])})
 
     def scenario(self, rng: random.Random, tier) -> Scenario:
         family, jobs = gen.gen_instance(rng, max_jobs=4, max_ops=4 if tier == "quick" else 6)
@@ -68,12 +97,29 @@ class Check(PropertyCheck):
         return Scenario(lines, meta)
 
     def nontrivial(self, scenario, outs):
+        if scenario.meta.get("kind") == "env":
+            return scenario.meta.get("accepted", 0) >= 3
         interesting = any(" 0 " in (" " + o.split("makespan_reward")[1].split("||")[0] + " ") for l, o in
                           zip(scenario.lines, outs) if l == "wsnap" and "makespan_reward" in o)
         return scenario.meta.get("accepted", 0) >= 3 and interesting
 
     def oracle(self, impl, scenario, index, line, out, ctx):
         res = []
+        if scenario.meta.get("kind") == "env":
+            if line.startswith("estep") and out != "raise":
+                _, reward, _, _, _ = impl.last_step
+                emitted = impl.env.reward_function.rewards
+                if not emitted or reward != emitted[-1]:
+                    res.append(("step-reward", f"`{line}` returned reward {reward}, the reward emitted for that step is "
+                                f"{emitted[-1] if emitted else None} (all rewards of the episode: {emitted})"))
+                lists = impl.env.dispatcher.schedule.schedule
+                n = sum(len(ms) for ms in lists)
+                mk = max((x.end_time for ms in lists for x in ms), default=0)
+                idle = sum((ms[-1].end_time - sum(x.operation.duration for x in ms)) for ms in lists if ms)
+                want = -mk if scenario.meta["reward"] == "makespan" else -idle
+                if len(emitted) != n or sum(emitted) != want or any(r > 0 for r in emitted):
+                    res.append(("env-sum", f"after `{line}`: rewards {emitted} for {n} dispatches, expected sum {want}"))
+            return res
         if line.startswith("inst"):
             ctx["n"] = 0
             return res
